@@ -1365,6 +1365,8 @@ class FlwdirRaster(Flwdir):
             idxs_out = np.arange(self.size, dtype=np.intp).reshape(self.shape)
         if weights is None:
             weights = np.ones(self.size, dtype=np.float32)
+        else:
+            weights = self._check_data(weights, "weights")
         rivavg = subgrid.segment_average(
             idxs_out=idxs_out.ravel(),
             idxs_nxt=self.idxs_ds if direction == "down" else self.idxs_us_main,
